@@ -448,7 +448,10 @@ class Session:
         def do():
             lst = self.lookup(op["p"])
             e_ = self.classes[f["cls"]]()
-            lst[op["i"]] = vsc.rand_attr(e_) if f["rand"] else vsc.attr(e_)
+            if op.get("plain"):
+                lst[op["i"]] = e_                 # a plain object: the list passes its own declaration on to the element
+            else:
+                lst[op["i"]] = vsc.rand_attr(e_) if f["rand"] else vsc.attr(e_)
         e = self.guarded(do)
         self.emit({"op": "ol_setitem", "p": op["p"], "i": op["i"], "exc": e, "post": self.project(), "stk": stk()})
 
